@@ -225,4 +225,112 @@ func init() {
 		explanation: "three links on real code: server side (status of the reply as a function of handler outcome / framework rule), raw wire (status round trip, shared with C05), client side (callCmd status from the reply's status and the decode result); statuses symbolic",
 		bounds:      "raw protocol only; library body codecs excluded (decode failure is produced by an unregistered codec id or the nil codec)",
 	})
+	c19jobs := func(tier string) []job {
+		var js []job
+		// realIP, backendMode, nBody, nMeta, replyMeta
+		for _, a := range [][]int{{0, 0, 1, 1, 1}, {1, 0, 1, 0, 0}, {0, 1, 1, 0, 1}, {1, 1, 0, 1, 0}, {0, 2, 1, 0, 0}, {1, 2, 1, 1, 0}} {
+			js = append(js, J("plugin/proxy", "VX_C19_ProxyCall", a...))
+		}
+		for _, a := range [][]int{{0, 0, 1}, {1, 0, 1}, {0, 1, 1}, {1, 1, 0}} {
+			js = append(js, J("plugin/proxy", "VX_C19_ProxyPush", a...))
+		}
+		if tier == "thorough" {
+			js = append(js, J("plugin/proxy", "VX_C19_ProxyCall", 0, 0, 3, 1, 1), J("plugin/proxy", "VX_C19_ProxyCall", 1, 1, 2, 1, 1), J("plugin/proxy", "VX_C19_ProxyPush", 0, 0, 3))
+		}
+		return js
+	}
+	registerCheck(&checkSpec{
+		id: "C19", dirs: []string{"plugin/proxy"}, level: "other", jobs: c19jobs,
+		assumptions: append(append([]string{}, rootAssume...), "the backend is played at wire level by the harness on a scripted connection of a real client session (the forwarder is a real erpc.Session)"),
+		explanation: "real proxy.call/push, PostNewPeer, unknown-handler binding, handleCall, and a real forwarding session are executed; the forwarded frame and the reply to the caller are parsed from the scripted connections and compared with the request / the backend's reply (symbolic body, status code, metadata values)",
+		bounds:      "body <= 3 bytes, one extra metadata pair each way, status code any int32, backend OK / error / closed",
+	})
+	registerCheck(&checkSpec{
+		id: "C15", dirs: []string{".", "plugin/proxy"}, level: "other",
+		jobs: func(tier string) []job {
+			js := []job{J(".", "VX_C02_Replies", 1, 1, 0, 2, 0, 9, 0), J(".", "VX_C02_Replies", 1, 1, 0, 2, 0, 3, 0), J(".", "VX_C02_Replies", 0, 1, 1, 1, 0, 0, 0), J(".", "VX_C02_CloseThenLoss", 0),
+				J(".", "VX_C03_Frame", 1, 1, 0, 0, 0, 0, 1, 0), J(".", "VX_C03_Frame", 1, 0, 0, 2, 0, 0, 1, 0), J(".", "VX_C03_Frame", 1, 0, 0, 3, 0, 2, 1, 0), J(".", "VX_C03_Frame", 9, 0, 0, 0, 0, 0, 1, 0), J(".", "VX_C03_Frame", 1, 2, 0, 0, 0, 1, 1, 0)}
+			js = append(js, c19jobs("quick")...)
+			if tier == "thorough" {
+				js = append(js, c02jobs("thorough")...)
+			}
+			return js
+		},
+		assumptions: rootAssume,
+		explanation: "every predefined status is snapshotted before and compared after the operation in each harness of the failure paths (connection loss with and without read error, cancelled calls, 404/400/500/405 replies, write failures, proxy failures): any in-place change of a shared status is an assertion failure",
+		bounds:      "one failing operation per path from the post-initialisation state; user plugins excluded",
+	})
+	registerCheck(&checkSpec{
+		id: "C07", dirs: []string{"."}, level: "other",
+		jobs: func(tier string) []job {
+			js := []job{J(".", "VX_C07_History", 1), J(".", "VX_C07_History", 2), J(".", "VX_C07_History", 3), J(".", "VX_C07_History", 4),
+				J(".", "VX_C07_AcceptHooks", 0, 0), J(".", "VX_C07_AcceptHooks", 1, 0), J(".", "VX_C07_AcceptHooks", 0, 1), J(".", "VX_C07_AcceptHooks", 1, 1)}
+			if tier == "thorough" {
+				js = append(js, J(".", "VX_C07_History", 5))
+			}
+			return js
+		},
+		assumptions: rootAssume,
+		explanation: "solver-chosen histories over {accept, SetID (fresh or colliding id), local close, remote close, traffic} on up to 3 sessions through the real ServeConn/newSession/SetID/SessionHub/Close/closeLocked/readDisconnected/write; after every step the index, health, close notification, fail-fast behaviour and disconnect-hook count are compared with a reference model kept by the harness; accept hooks that rename and/or reject",
+		bounds:      "histories of length <= 4 (quick) / 5 (thorough), <= 3 sessions, id alphabet of 2; quiescent points only (no concurrent close/EOF races)",
+	})
+	registerCheck(&checkSpec{
+		id: "C09", dirs: []string{"."}, level: "other",
+		jobs: func(tier string) []job {
+			var js []job
+			add := func(a ...int) { js = append(js, J(".", "VX_C09_Hooks", a...)) }
+			// nLeft, spareCap, nRight, depth, handlerPlugins, target, late, veto
+			add(0, 0, 0, 0, 0, 0, 0, 0)
+			add(2, 0, 1, 1, 1, 0, 0, 0)
+			add(2, 1, 0, 0, 1, 0, 0, 0)
+			add(2, 1, 1, 2, 1, 0, 0, 0)
+			add(2, 1, 1, 2, 1, 1, 0, 0)
+			add(1, 0, 1, 1, 1, 1, 1, 0)
+			add(1, 1, 0, 2, 1, 0, 2, 0)
+			add(2, 0, 1, 1, 1, 0, 0, 1)
+			add(1, 1, 0, 0, 1, 1, 1, 1)
+			js = append(js, J(".", "VX_C09_ClientHooks", 0, 0), J(".", "VX_C09_ClientHooks", 0, 1), J(".", "VX_C09_ClientHooks", 1, 0), J(".", "VX_C09_ClientHooks", 1, 1))
+			// veto statuses through the general frame harness (incl. code 405)
+			for vs := 1; vs <= 3; vs++ {
+				js = append(js, J(".", "VX_C03_Frame", 1, 0, 0, 0, vs, 0, 1, 0))
+			}
+			if tier == "thorough" {
+				for nl := 0; nl <= 2; nl++ {
+					for sp := 0; sp <= 1; sp++ {
+						for d := 0; d <= 2; d++ {
+							for tg := 0; tg <= 1; tg++ {
+								for lt := 0; lt <= 2; lt++ {
+									add(nl, sp, 1, d, 1, tg, lt, 1)
+									add(nl, sp, 0, d, 1-tg, tg, lt, 0)
+								}
+							}
+						}
+					}
+				}
+			}
+			return js
+		},
+		assumptions: rootAssume,
+		explanation: "plugin containers are built by the real AppendLeft/AppendRight/SubRoute/reg/cloneAndAppendMiddle/refresh code (slice growth modelled exactly as runtime.growslice, so aliasing of backing arrays is reproduced); one CALL to one of two sibling routes with a solver-chosen vetoing (plugin, stage) and symbolic veto status; the recorded hook trace must be a subsequence of the documented order restricted to global + matched chain",
+		bounds:      "<= 2 global-left, <= 1 global-right (+1 appended late), group depth <= 2, 2 sibling routes with handler-level plugins; hooks that do not fire are not demanded (upper bound only)",
+	})
+	registerCheck(&checkSpec{
+		id: "C10", dirs: []string{"."}, level: "other",
+		jobs: func(tier string) []job {
+			js := []job{J(".", "VX_C10_MapperTable"), J(".", "VX_C10_MapperSymbolic", 0, 0), J(".", "VX_C10_MapperSymbolic", 1, 1), J(".", "VX_C10_MapperSymbolic", 2, 1), J(".", "VX_C10_MapperSymbolic", 3, 0), J(".", "VX_C10_MapperSymbolic", 3, 2)}
+			for _, d := range []int{-1, 0, 1} {
+				js = append(js, J(".", "VX_C10_Lookup", d, 0, 0), J(".", "VX_C10_Lookup", d, 1, 0), J(".", "VX_C10_Lookup", d, 0, 1))
+			}
+			for m := 0; m <= 3; m++ {
+				js = append(js, J(".", "VX_C10_Conflict", m))
+			}
+			if tier == "thorough" {
+				js = append(js, J(".", "VX_C10_MapperSymbolic", 4, 1), J(".", "VX_C10_MapperSymbolic", 5, 0), J(".", "VX_C10_MapperSymbolic", 6, 2))
+			}
+			return js
+		},
+		assumptions: append(append([]string{}, rootAssume...), "identifiers are ASCII [A-Za-z0-9_]; reflection-based extraction of methods from controller structs (makeCallHandlersFromStruct etc.) is not executed: registration is checked from SubRouter.reg downward", "erpc.Fatalf ends the path (it exits the process)"),
+		explanation: "the real mappers (toServiceMethods, goutil.SnakeString, strings.Replace/ToLower/Trim, path.Join) are executed on symbolic identifiers; the real reg/getCall/getPush/bindCall/bindPush with symbolic requested names (map lookup forks on byte-wise equality with the registered keys); conflicts must reach Fatalf",
+		bounds:      "identifiers <= 3 (quick) / 6 (thorough) bytes, 3 registrations, requested name length within +-1 of a registered name",
+	})
 }
